@@ -153,7 +153,7 @@ def check(prop, tier, runs=None, workers=None, wall=None):
     wall = wall or d_wall
     say("check %s engine=%s tier=%s VERIF_SEED=%d runs=%d workers=%d tree=%s pristine_zygote=%s" % (prop, engine, tier, master, runs, workers, seams.REPO_SRC, pristine))
 
-    recs, timed_out = runner.run_batch(engine, prop, master, runs, workers, n_samples=3, wall_s=wall)
+    recs, timed_out = runner.run_batch(engine, prop, master, runs, workers, n_samples=3, wall_s=wall, stop_after_violating_runs=40)
     batch_s = time.time() - t0
     harness_errors = [r for r in recs if "harness_error" in r]
     good = [r for r in recs if "harness_error" not in r]
